@@ -11,11 +11,20 @@ import Driver.Lifecycle
 -/
 open BV BV.Driver
 
+/-- optional trailing token `~f<n>` of the input: which `BEDLike` implementor (and which strand / name /
+score variant) carried the coordinates in the implementation run. The properties do not depend on it,
+so the handlers never see it; it only contributes boundary classes. -/
+def splitFlavour (inp : List String) : List String × Option Nat :=
+  match inp.getLast? with
+  | some t => if t.startsWith "~f" then (inp.dropLast, (t.drop 2).toString.toNat?) else (inp, none)
+  | none => (inp, none)
+
 def handle (line : String) : String :=
   let ts := (line.trimAscii.toString.splitOn " ").filter (· != "")
   match ts with
   | prop :: id :: rest =>
-    let (inp, obs) := splitBar rest
+    let (inp0, obs) := splitBar rest
+    let (inp, fl) := splitFlavour inp0
     let v : Verdict :=
       match prop with
       | "C02" => handleC02 inp obs
@@ -39,6 +48,9 @@ def handle (line : String) : String :=
       | "C07" => handleC07 inp obs
       | "C08" => handleC08 inp obs
       | _ => { kind := "badcase", detail := s!"unknown property {prop}" }
+    let v := match fl with
+      | some f => { v with classes := v.classes ++ flavourClasses f }
+      | none => v
     v.render id
   | _ => "? badcase 0 - | empty line"
 
